@@ -111,7 +111,7 @@ class Pre:
         right = self._build(spec[2])
         z = z3.Bool(f"{self.prefix}zero_normal{t}")
         self.zero_vars.append((t, z))
-        self.store[t] = W.split(left, right, z)
+        self.store[t] = W.split(left, right, z, tid=t)
         return W.tree_id(t)
 
 
@@ -356,6 +356,8 @@ def run_insert(ctx, shapes, max_new, deadline, faults=False):
                 v = check_inv(eng, f.pc, post, pre.root, pre.items | new, pre.items | new, "insert", tmp=f.env["tmp"])
                 if v is None:
                     v = check_capacity(eng, f, post, pre.root, split_after)
+                if v is None:
+                    v = check_routing(eng, f, post)
             except E.Unknown as e:
                 results["unknown"].append(f"{shape.name}: {e}")
                 continue
@@ -377,6 +379,29 @@ def run_insert(ctx, shapes, max_new, deadline, faults=False):
     results["queries"], results["solver_s"] = eng.queries, round(eng.solver_s, 2)
     results["encoded"] = sorted(E.short(n) for n in eng.encoded)
     return results
+
+
+def check_routing(eng, final, post):
+    """[C04] below a non-zero normal every new id sits on the side D::side answered for it."""
+    sides = final.env.get("sides", [])
+    sites = final.env.get("side_sites", [])
+    for (item, b), tid in zip(sides, sites):
+        if tid is None or item is None or tid not in post:
+            continue
+        node = post[tid]
+        if W.node_kind(node) != W.SPLIT:
+            continue
+        sp = node.f[0]
+        problems, conds = [], []
+        lb, _ = walk(eng, post, sp.f[0], set(), problems, conds)
+        rb, _ = walk(eng, post, sp.f[1], set(), problems, conds)
+        want = z3.If(b, rb, lb)
+        cond = (want & bit(item)) == BV(0, U)
+        ok, m = eng.check(final.pc, cond)
+        if ok:
+            return {"clause": f"a new item is not placed on the side of split {tid} that D::side returned for it",
+                    "model": m, "cond": cond}
+    return None
 
 
 def check_capacity(eng, final, post, root, split_after):
@@ -500,6 +525,7 @@ def scenario(pre, values, adds=(), dels=(), split_after=2, n_trees=1, seeds=(0, 
         out += lines
         out.append(f"build n_trees={n_trees} split_after={split_after} seed={s}")
         out.append("expect_valid")
+        out.append("expect_routing")
         if check_capacity:
             out.append(f"expect_buckets_within {split_after}")
     return "\n".join(out) + "\n"
